@@ -52,11 +52,20 @@ static sqfs_file_t *memfile(void)
 	return (sqfs_file_t *)m;
 }
 
+static int comp_variant;       /* 0: default options; 1, 2: non-default options (kinds comp_<name>_o / _p): a copy must keep them */
 static sqfs_compressor_t *mkcomp(int id, int unc)
 {
 	sqfs_compressor_config_t cfg;
 	sqfs_compressor_t *c = NULL;
 	if (sqfs_compressor_config_init(&cfg, id, 4096, unc ? SQFS_COMP_FLAG_UNCOMPRESS : 0)) return NULL;
+	if (comp_variant && !unc && id == comp_id) {
+		int v = comp_variant;
+		if (id == SQFS_COMP_GZIP) { cfg.opt.gzip.window_size = v == 1 ? 9 : 12; cfg.level = v == 1 ? 2 : 6; cfg.flags |= v == 1 ? 0 : (SQFS_COMP_FLAG_GZIP_DEFAULT | SQFS_COMP_FLAG_GZIP_HUFFMAN | SQFS_COMP_FLAG_GZIP_RLE); }
+		else if (id == SQFS_COMP_XZ) { cfg.opt.xz.dict_size = 8192; cfg.opt.xz.lc = v == 1 ? 1 : 0; cfg.opt.xz.lp = v == 1 ? 1 : 2; cfg.opt.xz.pb = 1; cfg.level = v == 1 ? 1 : 3; cfg.flags |= v == 1 ? 0 : (SQFS_COMP_FLAG_XZ_X86 | SQFS_COMP_FLAG_XZ_EXTREME); }
+		else if (id == SQFS_COMP_LZMA) { cfg.opt.lzma.dict_size = 8192; cfg.opt.lzma.lc = 1; cfg.opt.lzma.lp = v == 1 ? 1 : 0; cfg.opt.lzma.pb = v == 1 ? 0 : 1; cfg.level = v == 1 ? 1 : 8; }
+		else if (id == SQFS_COMP_LZ4) { cfg.flags |= SQFS_COMP_FLAG_LZ4_HC; }
+		else if (id == SQFS_COMP_ZSTD) { cfg.level = v == 1 ? 1 : 19; }
+	}
 	if (sqfs_compressor_create(&cfg, &c)) return NULL;
 	return c;
 }
@@ -147,6 +156,12 @@ static unsigned long k_query(void *o)
 		sqfs_s32 r = ((sqfs_compressor_t *)o)->do_block(o, comp_unc ? packed : sample, comp_unc ? (sqfs_u32)packed_len : sizeof sample, out, sizeof out);
 		c = crc32(c, (void *)&r, sizeof r);
 		if (r > 0) c = crc32(c, out, r);
+		sqfs_compressor_config_t cfg;
+		memset(&cfg, 0, sizeof cfg);
+		((sqfs_compressor_t *)o)->get_configuration(o, &cfg);
+		c = crc32(c, (void *)&cfg.id, sizeof cfg.id); c = crc32(c, (void *)&cfg.flags, sizeof cfg.flags);
+		c = crc32(c, (void *)&cfg.block_size, sizeof cfg.block_size); c = crc32(c, (void *)&cfg.level, sizeof cfg.level);
+		c = crc32(c, (void *)&cfg.opt, sizeof cfg.opt);
 	} else if (!strcmp(kind, "idtable")) {
 		for (sqfs_u16 i = 0; i < 64; ++i) { sqfs_u32 id; int r = sqfs_id_table_index_to_id(o, i, &id); c = crc32(c, (void *)&r, sizeof r); if (r) break; c = crc32(c, (void *)&id, sizeof id); }
 	} else if (!strcmp(kind, "fragtable")) {
@@ -216,6 +231,7 @@ int main(int argc, char **argv)
 		char nm[16]; char dir;
 		if (sscanf(kind, "comp_%15[a-z0-9]_%c", nm, &dir) != 2) return 2;
 		comp_id = sqfs_compressor_id_from_name(nm); comp_unc = dir == 'u';
+		comp_variant = dir == 'o' ? 1 : dir == 'p' ? 2 : 0;
 		if (comp_id <= 0) return 2;
 		sqfs_compressor_t *c = mkcomp(comp_id, 0);
 		if (!c) { printf("{\"skip\":\"compressor not available\"}\n"); return 0; }
